@@ -89,7 +89,54 @@ def _exit_by_view(env, m, eb, adt, w, r, resv, evs):
             return x[2][0]
         return None
     ln = m.canon(rewrite(ln, simp))
-    if not (ln[0] == "bin" and ln[1] == "Sub" and ln[2] == Lc and m.canon(unref(ln[3])) in (m.canon(off), m.canon(offp))):
+
+    def before(load, rmw):
+        """the load was executed before the read-modify-write (sites compared at the first frame where they differ)"""
+        s1, s2 = (load[4] if len(load) > 4 else ()), (rmw[4] if len(rmw) > 4 else ())
+        for a_, b_ in zip(s1, s2):
+            if a_ == b_:
+                continue
+            if a_[0] != b_[0] or not isinstance(a_[1], int) or not isinstance(b_[1], int):
+                return False
+            bd = F.bodies.get(a_[0])
+            return bd is not None and a_[1] != b_[1] and bd.dominates(a_[1], b_[1])
+        return False
+
+    def covers_rest(x):
+        """x >= LEN - begin: LEN, or LEN - c / saturating_sub(LEN, c) for a value c of the counter read before the
+        reservation (the counter never decreases — ATOM.b, OWN.d — so c <= begin), or the minimum of such amounts"""
+        x = m.canon(unref(x))
+        if x == Lc:
+            return True
+        if x[0] == "call" and x[1] == "min" and len(x[2]) == 2:
+            return covers_rest(x[2][0]) and covers_rest(x[2][1])
+        a_ = b_ = None
+        if x[0] == "bin" and x[1] == "Sub":
+            a_, b_ = x[2], unref(x[3])
+        elif x[0] == "call" and x[1] == "saturating_sub" and len(x[2]) == 2:
+            a_, b_ = x[2][0], unref(x[2][1])
+        return a_ is not None and m.canon(a_) == Lc and b_[0] == "atomic" and b_[1] == "load" \
+            and R.classify(b_[2]) == ("pos", adt) and before(b_, rterm)
+    offs = (m.canon(off), m.canon(offp))
+    exact = ln[0] == "bin" and ln[1] == "Sub" and ln[2] == Lc and m.canon(unref(ln[3])) in offs
+    if not exact and ln[0] == "bin" and ln[1] == "Sub" and m.canon(unref(ln[3])) in offs:
+        # min(begin (+) amount, LEN) - begin with amount >= LEN - begin is LEN - begin
+        ex = ln[2]
+        if ex[0] == "call" and ex[1] == "min" and len(ex[2]) == 2:
+            for sm, l_ in ((ex[2][0], ex[2][1]), (ex[2][1], ex[2][0])):
+                sm = unref(sm)
+                if m.canon(unref(l_)) != Lc:
+                    continue
+                parts = None
+                if sm[0] == "call" and sm[1] == "saturating_add" and len(sm[2]) == 2:
+                    parts = (unref(sm[2][0]), unref(sm[2][1]))
+                elif sm[0] == "bin" and sm[1] == "Add":
+                    parts = (unref(sm[2]), unref(sm[3]))
+                if parts:
+                    for b0, amt in (parts, parts[::-1]):
+                        if m.canon(b0) in offs and covers_rest(amt):
+                            exact = True
+    if not exact:
         return (False, why, e.loc())
     # the view is dropped here: never forgotten, wrapped or returned
     vadt = e.info.get("adt")
